@@ -16,7 +16,8 @@ EXPLANATION = (
     "equals it (valuation over expected.is_some, equal). C18.4: each parser's subject goes through try_into_expected_tagged_value with the "
     "writer's tag. C18.5: early failure: the writer's 'Unknown' known value is the very constant the reader compares with; any other known "
     "value is an Err. Function/Parameter: Known <-> unsigned, Named <-> text under the same tag. C18.6: names that may be stored as a static or an owned string (the parser always produces the owned form) compare and hash by their text, never by storage variant. C18.9: a field written conditionally (add_assertion_if) is written iff !is_empty(that very field), the complement of the reader's empty default. C18.10: the well-known Function / Parameter / KnownValue constants have pairwise distinct codes and names. C18.11: Function / Parameter equality by variant pair (mixed -> false, Known by code, Named by name). Does not decide value-level round-trip of "
-    "Date, ARID or arbitrary parameter values (dcbor / bc-components).")
+    "Date, ARID or arbitrary parameter values (dcbor / bc-components)."
+    " C18.3 also: the function compared with the expected one is function(the parsed expression, unmodified).")
 TRUSTED = ['CBOR::try_into_expected_tagged_value fails unless the tag matches', 'ARID/Date/String CBOR conversions round-trip (dependencies)']
 FLOORS = {'C18.1': 10, 'C18.2': 1, 'C18.3': 1, 'C18.4': 3, 'C18.5': 1, 'C18.6': 2, 'C18.9': 2, 'C18.10': 3, 'C18.11': 2}
 P1 = ('param', 1)
@@ -330,6 +331,17 @@ def check(ctx):
             # the comparison must be between the parsed function and the expected one
             sides = [strip_sites(a) for a in eq_atoms[0][2]]
             exp_side = any(contains(s_, lambda y: y == ('vfield', ('vfield', P1, '', '1'), 'Some', '0')) for s_ in sides)
+            def parsed_fn(s_):
+                # function(<the expression parsed from the envelope, untouched>)
+                for y in walk(s_):
+                    if isinstance(y, tuple) and y and y[0] == 'call' and call_name(y) == 'function' and len(y[2]) == 1:
+                        x = strip_sites(detry(y[2][0]))
+                        while x[0] == 'call' and call_name(x) in ('clone', 'deref', 'borrow', 'as_ref') and len(x[2]) == 1:
+                            x = strip_sites(detry(x[2][0]))
+                        if x[0] == 'call' and call_name(x) in ('try_from', 'try_into') and strip_sites(detry(x[2][0])) == ('vfield', P1, '', '0'):
+                            return True
+                return False
+            exp_side = exp_side and any(parsed_fn(s_) for s_ in sides)
             rows = {}
             for given in (0, 1):
                 for equal in (False, True):
@@ -340,7 +352,7 @@ def check(ctx):
             if good:
                 ctx.ok('C18.3', ctx.site(b), 'with an expected function Ok is reachable only when function(parsed) == expected (table %s)' % rows, sample=str(rows))
             else:
-                ctx.fail('C18.3', ctx.site(b), 'expected-function table (given, equal)->Ok reachable is %s (compares with expected: %s)' % (rows, exp_side), key='C18.3|table')
+                ctx.fail('C18.3', ctx.site(b), 'expected-function table (given, equal)->Ok reachable is %s (compares function(the parsed expression, unmodified) with expected: %s)' % (rows, exp_side), key='C18.3|table')
     check_name_equality(ctx)
     # ---- Function / Parameter codecs: Known <-> Unsigned, Named <-> Text
     for ty in ('Function', 'Parameter'):
